@@ -106,7 +106,9 @@ func (p *sProc) Process(ctx context.Context, recs []opencdc.Record) []sdk.Proces
 		i := sIdx(r.Position)
 		kind := spSingle
 		if len(p.kinds) > 1 {
-			kind = p.kinds[verifConcrete(verifChoice(p.id+".kind", len(p.kinds)))]
+			// named per record: with parallel workers the call order is a schedule
+			// detail, the outcome chosen for a record must not depend on it
+			kind = p.kinds[verifConcrete(verifChoice(p.id+".kind.r"+strconv.Itoa(i), len(p.kinds)))]
 		}
 		if p.stamps != nil {
 			_, twice := p.stamps[i]
